@@ -114,3 +114,10 @@ chk("C08", "exploration", "online component-wise oracle (OpenSSL direct) over ha
     "members) are imported; the item's PEM is re-parsed with OpenSSL and n,e,d,p,q,dp,dq,qi / group,x,y,d / raw OKP keys / oct "
     "bytes are compared with the original, as are kty, bits, curve, is_private, alg, kid, use and key_ops.",
     "Trusted: OpenSSL key accessors on the harness' own key object.", "DESIGN.md 3/C08")
+chk("C19", "exploration", "exhaustive callback-program enumeration + differential against the callback-free twin, under ASan/UBSan",
+    "Every callback program up to length 2 (quick: 343 programs) / 3 (thorough: 6175) over 18 edits of the handed jwt_t is run "
+    "against 32 claim policies x 17 tokens (each passing or failing exactly one check or the signature; HS256, ES256, unsigned) "
+    "x 2 providers at a fixed clock and the verdict compared with the same checker without callback; every 7th program also "
+    "returns non-zero values and must fail; 1.2e5 policy-matrix cells with a callback-selected key/alg are compared with the "
+    "same pair configured through setkey.",
+    "The callback-free twin and the setkey route are the oracles.", "DESIGN.md 3/C19")
